@@ -436,6 +436,23 @@ def run(pm, ctx):
         for c in copies:
             dst = attr_chain(c.args[0]) or ""
             srcn = c.args[1]
+            # loop idioms over the weights in the order of _get_weights(): zip(self._get_weights(), best_weights) / enumerate(self._get_weights())
+            loop = next((p_ for p_ in parents(c) if isinstance(p_, ast.For)), None)
+            if loop is not None and isinstance(loop.iter, ast.Call) and len(c.args) >= 2:
+                itn = call_name(loop.iter)
+                tg = [norm_src(e) for e in loop.target.elts] if isinstance(loop.target, ast.Tuple) else []
+                a0, a1 = norm_src(c.args[0]), norm_src(c.args[1])
+                zip_ok = itn == "zip" and len(loop.iter.args) == 2 and norm_src(loop.iter.args[0]) == "self._get_weights()" and norm_src(loop.iter.args[1]) == "best_weights" \
+                    and tg == [a0, a1]
+                enum_ok = itn == "enumerate" and len(loop.iter.args) == 1 and norm_src(loop.iter.args[0]) == "self._get_weights()" and len(tg) == 2 and a0 == tg[1] \
+                    and a1 == f"best_weights[{tg[0]}]"
+                if zip_ok or enum_ok:
+                    got.extend((w, i) for i, w in enumerate(fixed))
+                    from ..flow import implied_literals
+                    known = implied_literals(c)
+                    if ("restore_best_weights", True) not in known or ("self.dynamic", False) not in known:
+                        probs.append(f"{norm_src(c)} is not under `restore_best_weights and not dynamic`")
+                    continue
             if not (isinstance(srcn, ast.Subscript) and norm_src(srcn.value) == "best_weights" and isinstance(srcn.slice, ast.Constant)):
                 probs.append(f"{norm_src(c)} does not copy from best_weights[i]")
                 continue
